@@ -184,6 +184,8 @@ class MapGen:
                 f = rng.choice([None, "_valid_special_properties_flags", "_valid_unit_properties_flags", "_hitpoints_percentage",
                                 "_shieldpoints_percentage", "_energypoints_percentage", "_resource_amount", "_units_in_hangar",
                                 "_flags"] + (["_padding"] if wild else []))
+                if self.opts.get("identical_twins"):
+                    f = None
                 if f in ("_valid_special_properties_flags", "_flags"):
                     c[f] ^= 1 << rng.randrange(5)
                 elif f == "_valid_unit_properties_flags":
@@ -225,7 +227,12 @@ class MapGen:
                 bt.append(rng.randrange(65536) if custom else 0)
                 mi.append(rng.randrange(65536) if custom else 0)
                 ga.append(rng.randrange(65536) if custom else 0)
-                nm.append(self.sid(self.rand_text()) if custom and rng.random() < 0.5 else 0)
+                if not custom and rng.random() < 0.03:
+                    # a unit back on its default settings (flag 1, nothing customised) that still carries a name: a text, or the
+                    # EMPTY text under an id of its own
+                    nm.append(self.sid(rng.choice(["", "", self.rand_text()])))
+                else:
+                    nm.append(self.sid(self.rand_text()) if custom and rng.random() < 0.5 else 0)
             ok_w = carried_weapons() if not self.opts.get("orphan_weapons") else set(range(nw))
             wd = [rng.randrange(65536) if (w in ok_w and rng.random() < 0.1) else 0 for w in range(nw)]
             wb = [rng.randrange(65536) if (w in ok_w and rng.random() < 0.1) else 0 for w in range(nw)]
@@ -258,6 +265,9 @@ class MapGen:
         payload["UPRP"] = S.spec_write(S.SPEC_FULL["UPRP"], {"_cuwp_slots": cuwps})
         used = [1 if any(c.values()) else 0 for c in cuwps]
         payload["UPUS"] = bytes(used if not wild else [rng.choice([0, 1]) for _ in range(64)])
+        if self.opts.get("upus_zero"):
+            # what editors leave behind for prefilled slots no trigger uses (the demon_lore fixture): data in UPRP, flag 0 in UPUS
+            payload["UPUS"] = bytes(64)
         payload["SWNM"] = S.spec_write(S.SPEC_FULL["SWNM"], {"_switch_string_ids": swnm})
         payload["WAV "] = S.spec_write(S.SPEC_FULL["WAV "], {"_wav_string_ids": wavs})
         payload["UNIS"] = S.spec_write(S.SPEC_FULL["UNIS"], unit_settings(100))
